@@ -11,10 +11,11 @@ Environment assumptions appear as hypotheses / as the `none` (raises) outcome of
   `_handle_last_epr_pair`, whose test is `pairs_left == 0` after a decrement);
 * the issuing subroutine is live and the result array is long enough when a response is consumed —
   otherwise the handler raises (`step … = none`), so such a schedule is not a run;
-* fresh physical ids / sequence-ordered delivery are assumptions of the *interpretation* only: the
-  bookkeeping never reads `sequence_number`, and pair k of a request is by definition the k-th response it
-  consumes. (Observation, see `measure_overtakes_deferred_keep`: when requests of different type share a
-  queue, a measure response can be consumed while an older keep response is deferred.)
+* LINK-LAYER ORDER (environment assumption of the *interpretation*): the responses of one queue (remote
+  node, purpose, role) arrive in the order of the requests they answer, with fresh physical ids. The
+  bookkeeping never reads `sequence_number`; "pair k of a request" is by definition the k-th response it
+  consumes, and equals the k-th pair generated for it under link-layer order provided the requests of the
+  queue have one type (see the observation `measure_overtakes_deferred_keep` for what happens otherwise).
 -/
 import NetqasmVerif.Lemmas.EprInv
 namespace NQ.C12
@@ -202,10 +203,23 @@ example : ∃ s, Reach 2 0 s ∧ PosReqs s ∧ s.log.length = 3 := by
 example : ((run 2 (init 0) (demo.take 14)).map fun s => (s.pending.map (·.id), waitOk s 0 .all 1 0 4)) =
     some ([0, 1], some false) := by decide
 
-/-- Observation (not one of (i)–(vi)): requests of different types in ONE queue. A keep request (1 pair,
-virtual qubit busy) followed by a measure request on the same socket; the keep response is deferred, the
-measure response that answers the second request is consumed by the FIRST request (it is the oldest
-outstanding one and a measure response needs no qubit). -/
+/-- OBSERVATION (kept as an observation, not a violation of (i)–(vi)).
+Environment assumption it depends on — LINK-LAYER ORDER: the responses of one queue (remote node,
+purpose, role) are delivered in the order of the requests they answer (request 0's pairs first, then
+request 1's, …; the link layer serves one (node, purpose) FIFO). Under that assumption, together with
+"first handleable response wins", the response consumed by the head request is always one generated
+for it whenever all requests of the queue have the same type (all keep responses of a queue wait for the
+same virtual qubit, so none can overtake another).
+The run below is what happens with requests of DIFFERENT types in one queue: a keep request (2 pairs,
+virtual qubit busy) followed by a measure request on the same socket. The first keep response is deferred;
+the measure response that answers the SECOND request arrives (in request order!) and is consumed by the
+FIRST request, because it is the oldest outstanding one and a measure response needs no qubit. Every
+statement (i)–(vi) holds for this run (the oldest request consumed it, slice k of its array was
+filled, …); what fails is the identification "k-th response consumed by a request = k-th pair the link
+layer generated for that request", which needs the one-type-per-queue side condition in addition to
+link-layer order. The SDK issues such mixed sequences only if an application calls `create_keep` /
+`recv_keep` with a busy virtual id and then a `*_measure` call on the same socket before the keep pairs
+were delivered. -/
 theorem measure_overtakes_deferred_keep :
     ((run 2 (init 0)
       [ .initApp 0 1, .startSub 0 0, .array 0 0 2, .store 0 0 0 (some 0), .store 0 0 1 (some 0),
